@@ -228,16 +228,15 @@ def run(F, R, tier):
             continue
         b = hs[0]["body"]
         fn = norm(hs[0]["path"])
-        rets = list(exprs(b, "Ret"))
-        ifs = list(exprs(b, "If"))
-        ms = [m for m in exprs(b, "Match") if not norm(m["scrut"].get("ty", "")).endswith("types::LhsValue")]
         calls_ = [c for c in exprs(b, "MethodCall") if c["m"] == meth]
-        t = tail(b)
-        direct = (t.get("k") == "MethodCall" and (t["m"] == meth or (t["m"] == "is_some" and deref(t["recv"]).get("m") == meth)))
-        R.check(not rets and not ifs and not ms and len(calls_) == 1 and direct, "R10-deleg", fn,
+        import common
+
+        def is_deleg(t, S, fr, meth=meth):
+            return t.get("k") == "MethodCall" and (t["m"] == meth or (t["m"] == "is_some" and deref(t["recv"]).get("m") == meth))
+        ok_, det_ = common.sole_result(E, hs[0], is_deleg)
+        R.check(ok_ and len(calls_) == 1, "R10-deleg", fn,
                 "answers exactly what %s() says (no extra shortcut or early return)" % meth,
-                "%d returns, %d ifs, %d matches, %d %s calls: an added fast path can disagree with the search on boundary lengths" % (
-                    len(rets), len(ifs), len(ms), len(calls_), meth), hs[0]["span"])
+                "%s; %d %s calls: an added fast path can disagree with the search on boundary lengths" % (det_, len(calls_), meth), hs[0]["span"])
     common.rule_default(E, R, only={"Contains"})
     R.not_decided += ["correctness of sliceslice / memchr (dependencies)", "the wasm32 path (not compiled on the host target)",
                       "equality of answers between the code paths and across recompilations (random anchor)"]
